@@ -139,8 +139,9 @@ partial def parseTy (j : Json) : P Ty := do
           | .str "list" => pure (some Dflt.emptyList)
           | .str "dict" => pure (some Dflt.emptyDict)
           | l => (fun x => some (Dflt.lit x)) <$> parseLit l
+        let reqBy ← if p.size > 6 then (← arr p[6]!).toList.mapM str else pure []
         let info : FieldInfo := { name := ← str p[0]!, alias := ← str p[1]!,
-                                  required := ← bool' p[2]!, fbod := ← bool' p[3]!, dflt := dflt }
+                                  required := ← bool' p[2]!, fbod := ← bool' p[3]!, dflt := dflt, requiredBy := reqBy }
         pure (info, ← parseTy p[4]!))
       pure (.obj ci fs)
   | t => throw s!"bad ty tag {t}"
